@@ -43,6 +43,8 @@ var (
 	ErrUint64OverflowsFloat64 = errors.New("uint64 overflows float64")
 	// ErrInt64UnderflowsUint64 is returned if when converting an int64 to a uint64 underflow uint64
 	ErrInt64UnderflowsUint64 = errors.New("int64 underflows uint64")
+	// ErrFloat64OverflowsUint64 is returned if when converting a float64 that is not a number or too large for uint64
+	ErrFloat64OverflowsUint64 = errors.New("float64 overflows uint64")
 	// ErrDivideByZero is returned when an amount is distributed over zero shares
 	ErrDivideByZero = errors.New("division by zero")
 	// ErrFloat64UnderflowsUint64 is returned if when converting an float6464 to a uint64 underflow uint64
@@ -202,6 +204,11 @@ func Int64ToCoin(a int64) (Coin, error) {
 func Float64ToCoin(a float64) (Coin, error) {
 	if a < 0 {
 		return 0, ErrFloat64UnderflowsUint64
+	}
+	// NaN, +Inf and anything from 2^64 up has no uint64 value: the conversion
+	// result would be implementation-defined
+	if math.IsNaN(a) || a >= math.MaxUint64 {
+		return 0, ErrFloat64OverflowsUint64
 	}
 	return Coin(a), nil
 }
